@@ -78,6 +78,13 @@ def variants_of(rel, all_trees, limit, rng):
                     "desc": f"rename {len(ren)} local name(s) of {qual}", "tree": t2})
     # ---- expression / statement level rewrites (sampled)
     sites = []
+    methods_by_name = {}
+    for t in all_trees:
+        for q_, f_, c_ in _functions(t):
+            if c_ is not None:
+                methods_by_name.setdefault(f_.name, []).append(f_)
+    methods_by_name = {k: v[0] for k, v in methods_by_name.items() if len(v) == 1
+                       and not v[0].args.vararg and not v[0].args.kwarg}
     for qual, fn, cls in _functions(tree):
         for n in ast.walk(fn):
             if isinstance(n, ast.If) and n.orelse and not (
@@ -91,6 +98,19 @@ def variants_of(rel, all_trees, limit, rng):
             if isinstance(n, ast.UnaryOp) and isinstance(n.op, ast.Not) \
                     and isinstance(n.operand, ast.BoolOp):
                 sites.append((qual, n, "demorgan"))
+            if isinstance(n, ast.If) and n.orelse and n.body and isinstance(
+                    n.body[-1], (ast.Return, ast.Continue, ast.Raise, ast.Break)):
+                sites.append((qual, n, "unnest-else"))
+            if isinstance(n, ast.AugAssign) and isinstance(n.target, ast.Name) \
+                    and isinstance(n.op, (ast.Add, ast.Sub)) \
+                    and isinstance(n.value, ast.Constant) and isinstance(n.value.value, int):
+                sites.append((qual, n, "expand-augassign"))
+            if isinstance(n, ast.Call) and isinstance(n.func, ast.Attribute) \
+                    and isinstance(n.func.value, ast.Name) and n.func.value.id in ("self", "cls") \
+                    and n.func.attr.startswith("_") and not n.func.attr.startswith("__") \
+                    and n.args and not any(isinstance(a, ast.Starred) for a in n.args) \
+                    and n.func.attr in methods_by_name:
+                sites.append((qual, n, "keyword-args"))
     rng.shuffle(sites)
     for qual, node, kind in sites[:limit]:
         t2 = copy.deepcopy(tree)
@@ -113,6 +133,39 @@ def variants_of(rel, all_trees, limit, rng):
             mir = {ast.Lt: ast.Gt, ast.Gt: ast.Lt, ast.LtE: ast.GtE, ast.GtE: ast.LtE}
             tgt.left, tgt.comparators = tgt.comparators[0], [tgt.left]
             tgt.ops = [mir[type(tgt.ops[0])]()]
+        elif kind == "unnest-else":
+            # if c: ...; return  else: B   ==>   if c: ...; return ; B   (in the parent body)
+            done = False
+            for par in ast.walk(t2):
+                for fld in ("body", "orelse", "finalbody"):
+                    lst = getattr(par, fld, None)
+                    if isinstance(lst, list) and tgt in lst:
+                        i = lst.index(tgt)
+                        tail, tgt.orelse = tgt.orelse, []
+                        lst[i + 1:i + 1] = tail
+                        done = True
+                        break
+                if done:
+                    break
+            if not done:
+                continue
+        elif kind == "expand-augassign":
+            new = ast.Assign(targets=[ast.Name(id=tgt.target.id, ctx=ast.Store())],
+                             value=ast.BinOp(left=ast.Name(id=tgt.target.id, ctx=ast.Load()),
+                                             op=tgt.op, right=tgt.value), type_comment=None)
+            tgt.__class__ = ast.Assign
+            tgt.__dict__.clear()
+            tgt.__dict__.update(new.__dict__)
+        elif kind == "keyword-args":
+            callee = methods_by_name[tgt.func.attr]
+            ps = [a.arg for a in callee.args.posonlyargs + callee.args.args][1:]
+            if len(tgt.args) > len(ps) or callee.args.posonlyargs:
+                continue
+            keep = len(tgt.args) // 2
+            moved = tgt.args[keep:]
+            tgt.args = tgt.args[:keep]
+            tgt.keywords = [ast.keyword(arg=ps[keep + i], value=a) for i, a in enumerate(moved)] \
+                + tgt.keywords
         elif kind == "demorgan":
             bo = tgt.operand
             new = ast.BoolOp(op=ast.Or() if isinstance(bo.op, ast.And) else ast.And(),
@@ -136,13 +189,43 @@ def variants_of(rel, all_trees, limit, rng):
     return res
 
 
+def private_renames(all_srcs):
+    """one variant per private identifier (method, function, attribute: `_x`, not dunder) defined
+    in the library: renamed at every occurrence in every file (identifier-level)"""
+    import re
+    names = set()
+    for rel, src in all_srcs.items():
+        for n in ast.walk(ast.parse(src)):
+            if isinstance(n, ast.FunctionDef) and n.name.startswith("_") \
+                    and not n.name.startswith("__"):
+                names.add(n.name)
+            if isinstance(n, ast.Attribute) and isinstance(n.ctx, ast.Store) \
+                    and n.attr.startswith("_") and not n.attr.startswith("__"):
+                names.add(n.attr)
+    out = []
+    for name in sorted(names):
+        pat = re.compile(r"(?<![A-Za-z0-9_])" + re.escape(name) + r"(?![A-Za-z0-9_])")
+        ov = {rel: pat.sub(name + "_rn", src) for rel, src in all_srcs.items() if pat.search(src)}
+        ok = True
+        for rel, src in ov.items():
+            try:
+                compile(src, rel, "exec")
+            except Exception:
+                ok = False
+        if ok and ov:
+            out.append({"file": sorted(ov)[0], "func": name, "kind": "rename-private",
+                        "desc": f"rename private identifier {name} in {len(ov)} file(s)",
+                        "overrides": ov})
+    return out
+
+
 def _job(args):
     v, pids = args
     from selfval.mut import run_rules, violations
     res = {}
     for pid in pids:
         try:
-            st, chk = run_rules(pid, {v["file"]: v["src"]})
+            st, chk = run_rules(pid, v.get("overrides") or {v["file"]: v["src"]})
         except Exception as e:
             res[pid] = f"crash:{type(e).__name__}: {str(e)[:80]}"
             continue
@@ -151,7 +234,7 @@ def _job(args):
         elif violations(chk):
             x = violations(chk)[0]
             res[pid] = f"reported:{x['rule']}: {x['construct'][:100]}"
-    return {k: x for k, x in v.items() if k != "src"}, res
+    return {k: x for k, x in v.items() if k not in ("src", "overrides")}, res
 
 
 def main():
@@ -164,6 +247,21 @@ def main():
         vs = variants_of(rel, trees, limit, rng)
         print(rel, len(vs), "variants", flush=True)
         jobs += [(v, FILES[rel]) for v in vs]
+    import glob
+    srcs = {os.path.relpath(p_, REPO): open(p_).read()
+            for p_ in glob.glob(os.path.join(REPO, "nasim", "**", "*.py"), recursive=True)}
+    from selfval.run import ALL
+    pr = private_renames({r: s_ for r, s_ in srcs.items() if r in FILES})
+    # occurrences outside the analysed files are renamed too
+    for v in pr:
+        import re
+        name = v["func"]
+        pat = re.compile(r"(?<![A-Za-z0-9_])" + re.escape(name) + r"(?![A-Za-z0-9_])")
+        for r, s_ in srcs.items():
+            if r not in v["overrides"] and pat.search(s_):
+                v["overrides"][r] = pat.sub(name + "_rn", s_)
+    print(len(pr), "private-identifier renames", flush=True)
+    jobs += [(v, ALL) for v in pr]
     with mp.Pool(16) as pool:
         results = pool.map(_job, jobs, chunksize=2)
     alarms = [{"variant": v, "checks": r} for v, r in results if r]
